@@ -55,12 +55,19 @@ def main():
     wt, prop = sys.argv[1], sys.argv[2]
     ks = sys.argv[3:] or ["1", "2"]
     skip_tests = "--no-tests" in ks
-    ks = [k for k in ks if not k.startswith("--")]
+    srcdir = "_seed"
+    suffix = ""
+    for a in ks:
+        if a.startswith("--src="):
+            srcdir = a[6:]
+        if a.startswith("--suffix="):
+            suffix = a[9:]
+    ks = [k for k in ks if not k.startswith("--")] or ["1", "2"]
     for k in ks:
-        sd = os.path.join(V, "seeded", "%s-%s" % (prop, k))
+        sd = os.path.join(V, "seeded", "%s-%s%s" % (prop, suffix, k))
         os.makedirs(sd, exist_ok=True)
         for a, b in (("patch%s.diff" % k, "patch.diff"), ("demo%s.py" % k, "demo.py"), ("notes%s.md" % k, "notes.md")):
-            src = os.path.join(wt, "_seed", a)
+            src = os.path.join(wt, srcdir, a)
             if os.path.exists(src):
                 shutil.copy(src, os.path.join(sd, b))
         base = tempfile.mkdtemp(prefix="seedimp-")
